@@ -1,6 +1,7 @@
 package main
 
 import (
+	"strconv"
 	"fmt"
 	"go/types"
 	"os"
@@ -563,12 +564,16 @@ func (s *State) evalDescribe(v Value) string {
 				b[i] = byte(u)
 			}
 		}
-		return fmt.Sprintf("%q", string(b))
+		return strconv.Quote(string(b))
 	case Iface:
 		if x.T == nil {
 			return "nil"
 		}
 		return s.evalDescribe(x.V)
+	case NativeVal:
+		return fmt.Sprint(x.V)
+	case string:
+		return strconv.Quote(x)
 	}
 	return describe(v)
 }
